@@ -4,6 +4,7 @@ CONSTANTS
   Threads = {1, 2}
   MaxOps = 2
   MaxRetry = 200
+  MaxLinks = 0
   RetryView = 2
 CONSTRAINT RetryBound
 CONSTRAINT NoAbaSoFar
